@@ -217,7 +217,9 @@ func c03Run(c c03Case, st *vlib.Stats) string {
 		var images []c03Image
 		var hookErr error
 		storage.VerifHook = func(point string, arg uint64) {
-			if point != "wal.write" && point != "wal.sync" {
+			// every PHYSICAL write to the log (wal.fwrite, announced by the wrapped log file itself)
+			// and every fsync; the logical wal.write point of the flush routine is not needed
+			if point != "wal.fwrite" && point != "wal.sync" {
 				return
 			}
 			id := len(images)
